@@ -112,7 +112,8 @@ def run(ctx):
     rng = random.Random(ctx.seed * 19 + 3)
     dbdir = S.fast_scratch(ctx)
     env = S.Env(dbdir)
-    n = ctx.n(450, 6000)
+    copy_flag = S.source_flags().get("statestore_dictlike_copy_copies_data", "true")
+    n = ctx.n(260, 6000)
     cases, exprs, fails = [], [], []
     cov = dict(snap_edit_then_read=0, numeric_first_segment_set=0, fresh_set_state_parent=0,
                subclass_then_clear=0, intermediate_created=0, negative_index=0, err_value=0, err_attr=0,
@@ -125,7 +126,7 @@ def run(ctx):
             res = S.run_both(env, chain, ops)
             (om, fm, im), (osq, fs, isq) = res
             cases.append((chain, ops))
-            exprs.append(S.case_expr(chain, ops, om, osq, fm, fs))
+            exprs.append(S.case_expr(chain, ops, om, osq, fm, fs, copy_flag=copy_flag))
             measure(cov, kinds, chain, ops, om)
             ctx.count(1, (tuple(chain), tuple(o[0] for o in ops), tuple(r[0] + (r[1] if r[0] == "err" else "") for r in om)))
             if idx < 4:
@@ -147,7 +148,7 @@ def run(ctx):
     finally:
         env.close()
         shutil.rmtree(dbdir, ignore_errors=True)
-    res = ctx.run_cases("statestore", S.header(), exprs, shard=40)
+    res = ctx.run_cases("statestore", S.header(), exprs, shard=25)
     bad = [i for i, z in enumerate(res) if z != 0]
     ctx.disagreements += len(bad)
     ctx.disagreements_checked = len(bad)
